@@ -33,6 +33,7 @@ from concurrent.futures import ThreadPoolExecutor
 from pathlib import Path
 
 from .. import core
+from ..c19_worker import key_patterns
 
 sys.path.insert(0, str(core.VERIF / "translator"))
 import c19_effects2coq as tr   # noqa: E402
@@ -41,11 +42,17 @@ PROP_FILES = [core.THEORIES / "C19" / "Props.v"]
 GEN = core.THEORIES / "Gen"
 GEN_TERM = GEN / "C19_TrainerEffects.v"
 GEN_OBL = GEN / "C19_Obligations.v"
-KEY = "SECRETKEY123"
+KEY = "c19f5ec2e7a1b2c3d4e5f60718293a4b5c6d7e8f"      # 40 characters: the shape wandb.login accepts
 SEL_F14 = "F14_live_config_written_unmasked"
 SEL_F15 = "F15_structured_config_with_wandb"
+SEL_REUSE = "reuse_chunks_with_unset_part_names"
 MODEL_TYPES = ["single_instance", "centroid", "centered_instance", "bottomup"]
-FRAMEWORKS = ["torch_dataset", "torch_dataset_np_chunks"]
+FRAMEWORKS = ["torch_dataset", "torch_dataset_np_chunks", "litdata"]
+WANDB_MODES = ["offline", None, "online"]        # config-level; the environment always forces offline
+FW_CELL = {"torch_dataset": "KMem", "torch_dataset_np_chunks": "KNp", "litdata": "KLit"}
+
+RM_TARGETS = (("RmTrain", "rm_train_all_paths"), ("RmVal", "rm_val_all_paths"),
+              ("RmLitTrain", "rm_lit_train_all_paths"), ("RmLitVal", "rm_lit_val_all_paths"))
 
 CHECKERS = [
     ("key_never_written", "key_never_written generated"),
@@ -56,8 +63,15 @@ CHECKERS = [
     ("chunk_guard_contract", "chunk_guard_contract generated"),
     ("rm_train_all_paths", "rm_all_paths no_excuse RmTrain generated"),
     ("rm_val_all_paths", "rm_all_paths no_excuse RmVal generated"),
+    ("rm_lit_train_all_paths", "rm_all_paths no_excuse RmLitTrain generated"),
+    ("rm_lit_val_all_paths", "rm_all_paths no_excuse RmLitVal generated"),
     ("rm_train_all_paths_unless_F15", "rm_all_paths sel_F15 RmTrain generated"),
     ("rm_val_all_paths_unless_F15", "rm_all_paths sel_F15 RmVal generated"),
+    ("rm_lit_train_all_paths_unless_F15", "rm_all_paths sel_F15 RmLitTrain generated"),
+    ("rm_lit_val_all_paths_unless_F15", "rm_all_paths sel_F15 RmLitVal generated"),
+    ("run_id_contract", "run_id_contract generated"),
+    ("final_config_contract_faults", "final_config_contract_faults generated"),
+    ("same_as_reference", "same_on_cells generated (reference true true)"),
     ("completes", "completes generated"),
     ("completes_unless_F15", "completes_unless_F15 generated"),
     ("flag_determined", "flag_determined generated"),
@@ -71,19 +85,52 @@ CHECKERS = [
 # cells
 
 def cell_of(spec) -> dict:
-    return {"wandb": bool(spec["use_wandb"]), "ckpt": bool(spec["save_ckpt"]),
-            "np": spec["framework"] == "torch_dataset_np_chunks", "delete": bool(spec["delete_chunks"]),
-            "structured": bool(spec["structured"])}
+    return {"wandb": bool(spec["use_wandb"]), "ckpt": bool(spec["save_ckpt"]), "fw": FW_CELL[spec["framework"]],
+            "delete": bool(spec["delete_chunks"]), "structured": bool(spec["structured"]),
+            "offline": spec.get("wandb_mode", "offline") == "offline", "existing": bool(spec.get("use_existing")),
+            "memfb": bool(spec.get("mem_fallback")),
+            # derived
+            "np": spec["framework"] == "torch_dataset_np_chunks"}
 
 
-def cell_term(c: dict, inject: bool) -> str:
+CELL_FIELDS = ("wandb", "ckpt", "fw", "delete", "structured", "offline", "existing", "memfb")
+
+
+def cell_term(c: dict, mode: int) -> str:
     b = core.cbool
-    return ("({| c_wandb := %s; c_ckpt := %s; c_np := %s; c_delete := %s; c_structured := %s |}, %s)"
-            % (b(c["wandb"]), b(c["ckpt"]), b(c["np"]), b(c["delete"]), b(c["structured"]), b(inject)))
+    return ("({| c_wandb := %s; c_ckpt := %s; c_fw := %s; c_delete := %s; c_structured := %s; c_offline := %s; "
+            "c_existing := %s; c_memfb := %s |}, %d)"
+            % (b(c["wandb"]), b(c["ckpt"]), c["fw"], b(c["delete"]), b(c["structured"]), b(c["offline"]),
+               b(c["existing"]), b(c["memfb"]), mode))
 
 
-def cell_key(c: dict, inject: bool = False):
-    return (c["wandb"], c["ckpt"], c["np"], c["delete"], c["structured"], bool(inject))
+def cell_key(c: dict, mode: int = 0):
+    return tuple(c[k] for k in CELL_FIELDS) + (int(mode),)
+
+
+def all_cells():
+    return [dict(zip(CELL_FIELDS, v)) for v in itertools.product(
+        (False, True), (False, True), ("KMem", "KNp", "KLit"), (False, True), (False, True), (False, True),
+        (False, True), (False, True))]
+
+
+def valid_cell(c: dict) -> bool:
+    """mirror of EffectIR.valid_cell (rank 0; one framework; chunk re-use only with a chunk framework)"""
+    return not (c["existing"] and c["fw"] == "KMem")
+
+
+# fault points of the harness -> fault mode of `run_cell` (EffectIR.fault_of_mode); faults outside any
+# `try` (dataset / after_initial) have no mode: there the process dies = a PREFIX of the fault-free trace
+FAULT_MODE = {("fit_return", "runtime"): 1, ("fit_return", "ki"): 2, ("fit_start", "runtime"): 3,
+              ("fit_start", "ki"): 4, ("ckpt_hook", "runtime"): 3}
+PREFIX_FAULTS = ("dataset", "after_initial")
+
+
+def fault_mode(spec) -> int:
+    f = fault_of(spec)
+    if not f or f["at"] in PREFIX_FAULTS:
+        return 0
+    return FAULT_MODE[(f["at"], f.get("kind", "runtime"))]
 
 
 def sel_F14(c: dict, ctor: bool) -> bool:
@@ -96,33 +143,77 @@ def sel_F15(c: dict) -> bool:
     return c["structured"] and c["wandb"]
 
 
-def mk_spec(model_type, framework, use_wandb, save_ckpt, structured, delete_chunks=True, inject=False):
-    return {"model_type": model_type, "framework": framework, "use_wandb": bool(use_wandb),
-            "save_ckpt": bool(save_ckpt), "structured": bool(structured), "delete_chunks": bool(delete_chunks),
-            "inject_fit_fault": bool(inject)}
+def mk_spec(model_type, framework, use_wandb, save_ckpt, structured, delete_chunks=True, inject=False,
+            wandb_mode="offline", use_existing=False, mem_fallback=False, fault=None, opts=None):
+    s = {"model_type": model_type, "framework": framework, "use_wandb": bool(use_wandb),
+         "save_ckpt": bool(save_ckpt), "structured": bool(structured), "delete_chunks": bool(delete_chunks),
+         "inject_fit_fault": bool(inject), "wandb_mode": wandb_mode, "use_existing": bool(use_existing),
+         "mem_fallback": bool(mem_fallback)}
+    if fault:
+        s["fault"] = dict(fault)
+    if opts:
+        s["opts"] = dict(opts)
+    return s
 
 
 def spec_from(d: dict) -> dict:
     return mk_spec(d["model_type"], d["framework"], d["use_wandb"], d["save_ckpt"], d["structured"],
-                   d.get("delete_chunks", True), d.get("inject_fit_fault", False))
+                   d.get("delete_chunks", True), d.get("inject_fit_fault", False), d.get("wandb_mode", "offline"),
+                   d.get("use_existing", False), d.get("mem_fallback", False), d.get("fault"), d.get("opts"))
+
+
+FW_SHORT = {"torch_dataset": "mem", "torch_dataset_np_chunks": "np", "litdata": "lit"}
 
 
 def spec_id(s) -> str:
-    return "%s-%s-w%d-k%d-s%d-d%d%s" % (s["model_type"], "np" if s["framework"].endswith("np_chunks") else "mem",
-                                        s["use_wandb"], s["save_ckpt"], s["structured"], s["delete_chunks"],
-                                        "-fault" if s.get("inject_fit_fault") else "")
+    out = "%s-%s-w%d-k%d-s%d-d%d" % (s["model_type"], FW_SHORT[s["framework"]], s["use_wandb"], s["save_ckpt"],
+                                     s["structured"], s["delete_chunks"])
+    wm = s.get("wandb_mode", "offline")
+    if wm != "offline":
+        out += "-wm_" + str(wm).lower()
+    if s.get("use_existing"):
+        out += "-reuse"
+    if s.get("mem_fallback"):
+        out += "-memfb"
+    f = fault_of(s)
+    if f:
+        out += "-fault_%s_%s" % (f["at"], f.get("kind", "runtime"))
+    if s.get("opts"):
+        import hashlib
+        out += "-o" + hashlib.sha1(json.dumps(s["opts"], sort_keys=True).encode()).hexdigest()[:6]
+    return out
+
+
+def fault_of(s) -> dict | None:
+    if s.get("fault"):
+        return s["fault"]
+    if s.get("inject_fit_fault"):
+        return {"at": "fit_return", "kind": "runtime"}
+    return None
 
 
 def full_grid():
-    return [mk_spec(m, f, w, k, s) for m in MODEL_TYPES for f in FRAMEWORKS
-            for w in (False, True) for k in (False, True) for s in (False, True)]
+    """every valid combination of the 9 factors (opts are drawn separately)"""
+    out = []
+    for m in MODEL_TYPES:
+        for f in FRAMEWORKS:
+            for w, k, st, d in itertools.product((False, True), repeat=4):
+                for wm in WANDB_MODES:
+                    for x in ((False, True) if f != "torch_dataset" else (False,)):
+                        for mf in ((False, True) if f == "torch_dataset" else (False,)):
+                            out.append(mk_spec(m, f, w, k, st, d, wandb_mode=wm, use_existing=x, mem_fallback=mf))
+    return out
+
+
+def factors(s):
+    return (("m", s["model_type"]), ("f", s["framework"]), ("w", s["use_wandb"]), ("k", s["save_ckpt"]),
+            ("s", s["structured"]), ("d", s["delete_chunks"]), ("wm", s.get("wandb_mode", "offline")),
+            ("x", s.get("use_existing", False)), ("mf", s.get("mem_fallback", False)))
 
 
 def covering_subset(rng, grid, n_target):
-    """greedy pairwise cover of the 5 factors, seeded; then random fill up to n_target."""
-    fac = lambda s: (("m", s["model_type"]), ("f", s["framework"]), ("w", s["use_wandb"]),
-                     ("k", s["save_ckpt"]), ("s", s["structured"]))
-    pairs = lambda s: set(itertools.combinations(fac(s), 2))
+    """greedy pairwise cover of the 9 factors, seeded; then random fill up to n_target."""
+    pairs = lambda s: set(itertools.combinations(factors(s), 2))
     need = set().union(*(pairs(s) for s in grid))
     pool = grid[:]
     rng.shuffle(pool)
@@ -135,6 +226,35 @@ def covering_subset(rng, grid, n_target):
     while len(chosen) < n_target and pool:
         chosen.append(pool.pop())
     return chosen, len(need)
+
+
+def draw_opts(rng, spec) -> dict:
+    """nuisance options of a valid configuration that must not change the observable behaviour
+    (about half of the runs keep the defaults of round 1)"""
+    if rng.random() < 0.4:
+        return {}
+    o = {}
+    if rng.random() < 0.4:
+        o["early_stopping"] = True
+    if rng.random() < 0.4:
+        o["steps_per_epoch"] = rng.choice([None, 2])
+    if rng.random() < 0.4:
+        o["save_top_k"] = rng.choice([2, -1])
+    if rng.random() < 0.4:
+        o["save_last"] = rng.choice([False, None])
+    if rng.random() < 0.3:
+        o["max_epochs"] = 2
+    if rng.random() < 0.4:
+        o["chunk_size"] = rng.choice([1, 7])
+    if rng.random() < 0.4:
+        o["scale"] = rng.choice([1.0, None] if not spec["structured"] else [1.0, 0.25])
+    if spec["model_type"] == "centered_instance" and rng.random() < 0.5:
+        o["crop_auto"] = True
+    if not spec["structured"] and rng.random() < 0.3:
+        o["profiler"] = rng.choice(["simple", "passthrough"])
+    if not spec["structured"] and rng.random() < 0.2:
+        o["strategy"] = "auto"
+    return o
 
 
 # --------------------------------------------------------------------------
@@ -198,6 +318,19 @@ def obligations_text(vals: dict) -> str:
             "  exists p1 a p2, trace E generated = p1 ++ a :: p2 /\\ is_write_to FTraining a = true /\\\n"
             "                  Forall (fun b => is_set b = false) p2",
             "exact (final_after_mutation_lemma generated ob_final_config_contract).")
+        if val("run_id_contract", ex["run_id_contract"]):
+            thm("gen_final_config_records_run_id",
+                "forall E, fl E RankZero = true -> fl E UseWandb = true -> no_faults E -> result E generated = Ok ->\n"
+                "  exists p1 a p2 b p3, trace E generated = p1 ++ a :: p2 ++ b :: p3 /\\\n"
+                "    is_set_path run_id_path a = true /\\ is_write_to FTraining b = true /\\\n"
+                "    Forall (fun c => is_set c = false) p3",
+                "exact (final_config_records_run_id_lemma generated ob_final_config_contract ob_run_id_contract).")
+    if val("final_config_contract_faults", ex["final_config_contract_faults"]):
+        thm("gen_final_config_under_faults",
+            "forall E, fl E RankZero = true -> result E generated <> ExnInvalid ->\n"
+            "  exists p1 a p2, trace E generated = p1 ++ a :: p2 /\\ is_write_to FTraining a = true /\\\n"
+            "                  Forall (fun b => is_set b = false) p2",
+            "exact (final_config_under_faults_lemma generated ob_final_config_contract_faults).")
     if val("ckpt_contract", ex["ckpt_contract"]):
         thm("gen_no_ckpt_unless_requested",
             "forall E, fl E SaveCkpt = false -> Forall (fun a => is_write_to FCkpt a = false) (trace E generated)",
@@ -208,21 +341,20 @@ def obligations_text(vals: dict) -> str:
             "exact (ckpt_written_when_requested_lemma generated ob_ckpt_contract).")
     if val("chunk_guard_contract", ex["chunk_guard_contract"]):
         thm("gen_no_chunk_deletion_unless_requested",
-            "forall E, rm_requested (fl E) = false ->\n"
-            "  Forall (fun a => is_rm RmTrain a = false /\\ is_rm RmVal a = false) (trace E generated)",
-            "exact (no_rm_unless_requested_lemma generated ob_chunk_guard_contract).")
+            "forall E t, rm_req (fl E) t = false -> Forall (fun a => is_rm t a = false) (trace E generated)",
+            "exact (no_rm_unless_requested_any_lemma generated ob_chunk_guard_contract).")
     all_rm = True
-    for t, nm in (("RmTrain", "rm_train_all_paths"), ("RmVal", "rm_val_all_paths")):
+    for t, nm in RM_TARGETS:
         if val(nm, ex[nm]):
             thm(f"gen_{nm}",
-                f"forall E, valid_cell (fl E) = true -> rm_requested (fl E) = true ->\n"
+                f"forall E, valid_cell (fl E) = true -> rm_req (fl E) {t} = true ->\n"
                 f"  result E generated <> ExnInvalid -> exists a, In a (trace E generated) /\\ is_rm {t} a = true",
                 f"exact (chunk_deletion_on_all_paths_lemma {t} generated ob_{nm}).")
         else:
             all_rm = False
             if val(nm + "_unless_F15", ex[nm + "_unless_F15"]):
                 thm(f"gen_{nm}_partial",
-                    f"forall E, valid_cell (fl E) = true -> rm_requested (fl E) = true -> sel_F15 (fl E) = false ->\n"
+                    f"forall E, valid_cell (fl E) = true -> rm_req (fl E) {t} = true -> sel_F15 (fl E) = false ->\n"
                     f"  result E generated <> ExnInvalid -> exists a, In a (trace E generated) /\\ is_rm {t} a = true",
                     f"exact (chunk_deletion_on_all_paths_unless_F15_lemma {t} generated ob_{nm}_unless_F15).")
     if not all_rm and val("has_rm_missing_cell", ex["has_rm_missing_cell"]):
@@ -244,6 +376,7 @@ def obligations_text(vals: dict) -> str:
                 "  result E generated = Ok \\/ result E generated = ExnInvalid",
                 "exact (run_completes_unless_F15_sound_lemma generated ob_completes_unless_F15).")
     val("flag_determined", ex["flag_determined"])
+    val("same_as_reference", ex["same_as_reference"])
     return "\n".join(T), names
 
 
@@ -359,14 +492,22 @@ def classify_path(rel: str | None) -> str:
         return "training"
     if rel == "chunks/config.yaml":
         return "chunkcfg"
+    if rel.startswith("!outside:"):
+        return "outside"
     if rel.endswith(".ckpt"):
         return "ckpt"
     return "other:" + rel
 
 
+CHUNK_DIRS = {"chunks/train_chunks": "train_chunks", "chunks/val_chunks": "val_chunks",
+              # after the memory fallback the trainer's chunk paths are ./train_chunks, ./val_chunks of the cwd
+              "cwd/train_chunks": "train_chunks", "cwd/val_chunks": "val_chunks"}
+
+
 def observed_trace(res: dict):
-    """canonical observable trace of a real run: writes (class, by-constructor, key) and removals."""
+    """canonical observable trace of a real run: writes (class, by-constructor, key), removals, logins."""
     tr_, ctor = [], True
+    lit = res["spec"]["framework"] == "litdata"
     for ev in res["events"]:
         k = ev["kind"]
         if k == "init_done":
@@ -382,9 +523,23 @@ def observed_trace(res: dict):
         elif k == "wandb.config":
             tr_.append(["w", "wandbrun", ctor, bool(ev.get("key_in_payload"))])
         elif k == "rmtree":
-            if ev["file"] in ("chunks/train_chunks", "chunks/val_chunks"):
-                tr_.append(["rm", ev["file"].split("/")[-1]])
+            if ev["file"] in CHUNK_DIRS:
+                tr_.append(["rm", ("lit_" if lit else "") + CHUNK_DIRS[ev["file"]]])
+        elif k == "wandb.login":
+            tr_.append(["login"])
     return tr_
+
+
+def expected_prefix(spec, m_t):
+    """faults outside any `try`: the process dies there — the observable trace is the fault-free model
+    trace cut at that point (after the first initial_config write / after train()'s first config save)"""
+    at = fault_of(spec)["at"]
+    for i, o in enumerate(m_t):
+        if at == "after_initial" and o[0] == "w" and o[1] == "initial":
+            return m_t[:i + 1]
+        if at == "dataset" and o[0] == "w" and o[1] == "training" and o[2] is False:
+            return m_t[:i + 1]
+    return m_t
 
 
 def observed_outcome(res: dict) -> str:
@@ -452,18 +607,28 @@ def oracle(res: dict) -> list[dict]:
     spec = res["spec"]
     c = cell_of(spec)
     fails = []
-    injected = bool(spec.get("inject_fit_fault"))
+    flt = fault_of(spec)
+    injected = bool(flt)
+    swallowed_ki = injected and flt.get("kind") == "ki" and flt["at"] not in PREFIX_FAULTS
+    died_outside_try = injected and flt["at"] in PREFIX_FAULTS
     raised = res.get("raised") or {}
     f15_crash = (sel_F15(c) and res.get("outcome") == "raised" and raised.get("type") == "ConfigAttributeError"
                  and "run_id" in raised.get("msg", "") and raised.get("phase") == "train")
+    # finding F131: chunk re-use with part_names / edges left to "take them from the labels": the constructor
+    # fills them in only when it creates the chunks, so the lightning module is built with part_names = None
+    reuse_crash = (bool(spec.get("use_existing")) and spec["model_type"] != "centroid"
+                   and not (spec.get("opts") or {}).get("explicit_names")
+                   and res.get("outcome") == "raised" and raised.get("phase") == "train"
+                   and raised.get("type") == "TypeError" and "NoneType" in raised.get("msg", ""))
     # (o1) completes without error
     if res.get("outcome") != "ok":
-        if injected and raised.get("type") == "RuntimeError" and "C19 injected fault" in raised.get("msg", ""):
+        if injected and raised.get("type") in ("RuntimeError", "KeyboardInterrupt") \
+                and "C19 injected fault" in raised.get("msg", "") and not swallowed_ki:
             pass
         else:
             fails.append({"clause": "completes_without_error",
                           "detail": f"{raised.get('phase')}: {raised.get('type')}: {raised.get('msg', '')[:200]}",
-                          "selector": SEL_F15 if f15_crash else None})
+                          "selector": SEL_F15 if f15_crash else SEL_REUSE if reuse_crash else None})
     # (o2) at no boundary does any file under the output tree contain the key
     last_write: dict[str, dict] = {}
     ctor = True
@@ -471,7 +636,8 @@ def oracle(res: dict) -> list[dict]:
     for i, ev in enumerate(res["events"]):
         if ev["kind"] == "init_done":
             ctor = False
-        if ev.get("file") and ev["kind"] in ("omegaconf.save", "ckpt", "torch.save"):
+        if ev.get("file") and ev["kind"] in ("omegaconf.save", "ckpt", "torch.save") \
+                and not ev["file"].startswith("!outside:"):
             last_write[ev["file"]] = {"ctor": ctor, "key": bool(ev.get("key_in_file")), "i": i}
         for hit in ev.get("tree_hits", []):
             lw = last_write.get(hit)
@@ -510,7 +676,8 @@ def oracle(res: dict) -> list[dict]:
         if k_ini not in ("", None) and k_ini != KEY:
             fails.append({"clause": "initial_config_key_blank", "selector": None,
                           "detail": f"api_key in initial_config.yaml is {k_ini!r}"})
-    if res.get("outcome") == "ok":
+    if res.get("outcome") == "ok" or (injected and not died_outside_try):
+        # also when an exception struck inside train()'s try: the final save sits in `finally`
         if fin is None:
             fails.append({"clause": "final_config_written", "detail": "training_config.yaml missing", "selector": None})
         else:
@@ -528,15 +695,25 @@ def oracle(res: dict) -> list[dict]:
                                   "detail": f"tracking on, run(s) {ids} were opened, but training_config.yaml has "
                                             f"run_id = {None if rid is KeyError else rid!r}"})
     # (o4) checkpoint iff requested (a run that reached fit)
-    if res.get("outcome") == "ok" or injected or f15_crash:
-        has = bool(res.get("ckpt_files"))
-        if has != bool(spec["save_ckpt"]):
-            fails.append({"clause": "ckpt_iff_requested", "selector": None,
-                          "detail": f"save_ckpt={spec['save_ckpt']} but checkpoint files = {res.get('ckpt_files')}"})
+    reached_fit_end = res.get("outcome") == "ok" or f15_crash or (injected and flt["at"] == "fit_return")
+    if swallowed_ki and flt["at"] == "fit_start":
+        reached_fit_end = False
+    has = bool(res.get("ckpt_files"))
+    if (has and not spec["save_ckpt"]) or (spec["save_ckpt"] and reached_fit_end and not has):
+        fails.append({"clause": "ckpt_iff_requested", "selector": None,
+                      "detail": f"save_ckpt={spec['save_ckpt']} but checkpoint files = {res.get('ckpt_files')}"})
     # (o5) no chunk files when their deletion is requested
-    if c["np"] and c["delete"] and (res.get("chunk_files") or res.get("chunk_dirs")):
-        fails.append({"clause": "chunks_deleted_when_requested", "selector": SEL_F15 if f15_crash else None,
-                      "detail": f"left behind: {(res.get('chunk_files') or res.get('chunk_dirs'))[:4]}"})
+    #      — whatever framework produced them (np chunks, litdata chunks, np chunks of the memory fallback),
+    #      created by this run or re-used; not demanded of a process that died outside train()'s try
+    if c["delete"] and not died_outside_try and res.get("chunk_files"):
+        fails.append({"clause": "chunks_deleted_when_requested",
+                      "selector": SEL_F15 if f15_crash else SEL_REUSE if reuse_crash else None,
+                      "detail": f"left behind: {res.get('chunk_files')[:4]}"})
+    # (o5') and never deleted when NOT requested: a chunk run with the flag off keeps its chunks
+    if not c["delete"] and (c["fw"] != "KMem" or c["memfb"]) and res.get("outcome") == "ok" \
+            and not res.get("chunk_files"):
+        fails.append({"clause": "chunks_kept_unless_deletion_requested", "selector": None,
+                      "detail": "delete_chunks_after_training is off but no chunk file is left"})
     return fails
 
 
@@ -545,49 +722,90 @@ def oracle(res: dict) -> list[dict]:
 def choose_specs(run: core.Run, model_by_cell: dict | None):
     grid = full_grid()
     rng = run.rng
-    if run.tier == "quick":
-        specs, uncovered = covering_subset(rng, grid, 11)
-    else:
-        specs, uncovered = grid[:], 0
-        rng.shuffle(specs)
+    quick = run.tier == "quick"
+    specs, uncovered = covering_subset(rng, grid, 16 if quick else 60)
     run.coverage["pairwise_uncovered"] = uncovered
-    have = {spec_id(s) for s in specs}
+    for s in specs:
+        o = draw_opts(rng, s)
+        if o:
+            s["opts"] = o
+    have = set()
 
-    def add(s):
+    def add(s, witness=False):
+        # re-use runs inside the domain spell the head's part names / edges out: with use_existing_chunks the
+        # constructor does not fill them in from the labels (that omission is finding F131, replayed from the corpus)
+        if s.get("use_existing") and not witness:
+            s.setdefault("opts", {})["explicit_names"] = True
         if spec_id(s) not in have:
             specs.append(s)
             have.add(spec_id(s))
+    first, specs = specs, []
+    for s in first:
+        add(s)
+    pick = lambda xs: rng.choice(list(xs))
+    coin = lambda: bool(rng.getrandbits(1))
     # corpus witnesses are replayed on every run
     for f in sorted((core.CORPUS / "C19").glob("*.json")):
         w = json.loads(f.read_text())
-        add(spec_from(w["spec"]))
-    # guard of the chunk deletion: delete flag off
-    add(mk_spec(rng.choice(MODEL_TYPES), "torch_dataset_np_chunks", False, False, bool(rng.getrandbits(1)),
-                delete_chunks=False))
-    # fault injected when Trainer.fit returns: `finally` must still save the config and delete the chunks
-    add(mk_spec(rng.choice(MODEL_TYPES), "torch_dataset_np_chunks", False, True, False, inject=True))
-    add(mk_spec(rng.choice(MODEL_TYPES), "torch_dataset_np_chunks", True, bool(rng.getrandbits(1)), False, inject=True))
-    if run.tier != "quick":
+        add(spec_from(w["spec"]), witness=True)
+    # (the pairwise cover above already contains: tracking on x wandb_mode None / online (the login path),
+    #  chunk re-use x delete on / off, litdata x delete, memory fallback x delete on / off, np chunks x delete off)
+    if uncovered or not quick:
+        for wm in (None, "online"):
+            add(mk_spec(pick(MODEL_TYPES), pick(FRAMEWORKS[:2]), True, coin(), coin(), wandb_mode=wm))
+        add(mk_spec(pick(MODEL_TYPES), "torch_dataset_np_chunks", coin(), coin(), coin(), delete_chunks=True,
+                    use_existing=True))
+        add(mk_spec(pick(MODEL_TYPES), pick(FRAMEWORKS[1:]), False, False, coin(), delete_chunks=False,
+                    use_existing=True))
+        add(mk_spec(pick(MODEL_TYPES), "litdata", coin(), coin(), coin(), delete_chunks=True))
+        add(mk_spec(pick(MODEL_TYPES), "torch_dataset", coin(), coin(), coin(), delete_chunks=True, mem_fallback=True))
+        add(mk_spec(pick(MODEL_TYPES), "torch_dataset", False, False, coin(), delete_chunks=False, mem_fallback=True))
+        add(mk_spec(pick(MODEL_TYPES), "torch_dataset_np_chunks", False, False, coin(), delete_chunks=False))
+    # faults inside train()'s try (`finally` must still save the config and delete the chunks) ...
+    F = lambda at, kind="runtime": {"at": at, "kind": kind}
+    add(mk_spec(pick(MODEL_TYPES), "torch_dataset_np_chunks", False, True, False, fault=F("fit_return")))
+    add(mk_spec(pick(MODEL_TYPES), "torch_dataset_np_chunks", True, coin(), coin(), fault=F("fit_return")))
+    add(mk_spec(pick(MODEL_TYPES), pick(FRAMEWORKS[:2]), coin(), True, coin(), fault=F("ckpt_hook")))
+    add(mk_spec(pick(MODEL_TYPES), "torch_dataset_np_chunks", True, coin(), coin(), fault=F("fit_start")))
+    add(mk_spec(pick(MODEL_TYPES), pick(FRAMEWORKS[:2]), coin(), True, coin(), fault=F("fit_return", "ki")))
+    # ... and outside it (the process dies: only the key clause and the trace prefix are judged)
+    add(mk_spec(pick(MODEL_TYPES), "torch_dataset_np_chunks", True, coin(), coin(), fault=F("dataset")))
+    add(mk_spec(pick(MODEL_TYPES), pick(FRAMEWORKS[:2]), coin(), coin(), coin(), wandb_mode=pick(WANDB_MODES),
+                fault=F("after_initial")))
+    if not quick:
         for m in MODEL_TYPES:
-            add(mk_spec(m, "torch_dataset_np_chunks", bool(rng.getrandbits(1)), bool(rng.getrandbits(1)),
-                        bool(rng.getrandbits(1)), delete_chunks=False))
-        add(mk_spec(rng.choice(MODEL_TYPES), "torch_dataset", True, True, False, inject=True))
-        add(mk_spec(rng.choice(MODEL_TYPES), "torch_dataset_np_chunks", True, True, True, inject=True))
+            add(mk_spec(m, pick(FRAMEWORKS[1:]), coin(), coin(), coin(), delete_chunks=False))
+            add(mk_spec(m, "litdata", coin(), coin(), coin(), delete_chunks=True, use_existing=coin()))
+            add(mk_spec(m, "torch_dataset", coin(), coin(), coin(), delete_chunks=coin(), mem_fallback=True))
+        for at, kind in (("fit_return", "runtime"), ("fit_start", "runtime"), ("fit_start", "ki"),
+                         ("fit_return", "ki"), ("ckpt_hook", "runtime"), ("dataset", "runtime"),
+                         ("after_initial", "runtime")):
+            for f in FRAMEWORKS:
+                add(mk_spec(pick(MODEL_TYPES), f, coin(), True, coin(), wandb_mode=pick(WANDB_MODES),
+                            fault=F(at, kind)))
     # search: every leak signature / failing outcome the MODEL predicts must be replayed on a real run
     if model_by_cell:
         sigs = {}
         for key, (obs, outcome) in model_by_cell.items():
-            if key[5]:
+            c = dict(zip(CELL_FIELDS, key[:-1]))
+            if key[-1] or not valid_cell(c):
                 continue
             sig = (tuple((o[1], o[2]) for o in obs if o[0] == "w" and o[3]), outcome)
             sigs.setdefault(sig, []).append(key)
-        for sig, keys in sigs.items():
+        n_added = 0
+        for sig, keys in sorted(sigs.items(), key=lambda kv: repr(kv[0])):
             if not sig[0] and sig[1] == "ok":
                 continue
-            covered = any(cell_key(cell_of(s), s.get("inject_fit_fault")) in keys for s in specs)
-            if not covered:
-                w, k, n, d, st, _ = sorted(keys)[0]
-                add(mk_spec(rng.choice(MODEL_TYPES), FRAMEWORKS[1 if n else 0], w, k, st, delete_chunks=d))
+            covered = any(cell_key(cell_of(s), fault_mode(s)) in keys and not fault_of(s) for s in specs)
+            if not covered and n_added < 12:
+                # prefer a cheap representative: in-memory / np chunks, no re-use, no fallback
+                rank = lambda k: (k[2] == "KLit", k[6], k[7], k)
+                c = dict(zip(CELL_FIELDS, sorted(keys, key=rank)[0][:-1]))
+                fw = {v: k for k, v in FW_CELL.items()}[c["fw"]]
+                add(mk_spec(pick(MODEL_TYPES), fw, c["wandb"], c["ckpt"], c["structured"], c["delete"],
+                            wandb_mode="offline" if c["offline"] else pick([None, "online"]),
+                            use_existing=c["existing"], mem_fallback=c["memfb"]))
+                n_added += 1
     return specs
 
 
@@ -598,24 +816,31 @@ def check(run: core.Run) -> int:
                                                            "unsupported") if k in info}
     run.coverage["checkers_on_generated_term"] = vals
 
-    # model traces for every cell (32 x {no fault, fault when fit returns})
+    # model traces for every cell (384, no fault); fault modes are evaluated for the chosen runs below
     model_by_cell = None
     if pre is not None and vals is not None:
-        cells = [dict(wandb=w, ckpt=k, np=n, delete=d, structured=s) for w in (False, True) for k in (False, True)
-                 for n in (False, True) for d in (False, True) for s in (False, True)]
-        terms, keys = [], []
-        for c in cells:
-            for inj in (False, True):
-                terms.append(cell_term(c, inj))
-                keys.append(cell_key(c, inj))
+        cells = all_cells()
         try:
-            outs = core.coq_eval_sharded(pre, terms, "run_cell generated", "rrun", shard=64)
-            model_by_cell = {k: canon_model(o) for k, o in zip(keys, outs)}
+            outs = core.coq_eval_sharded(pre, [cell_term(c, 0) for c in cells], "run_cell generated", "rrun", shard=128)
+            model_by_cell = {cell_key(c, 0): canon_model(o) for c, o in zip(cells, outs)}
         except core.CoqEvalError as e:
             run.obligation("model traces of the generated term evaluate", False, str(e)[-600:])
 
     # ---- real runs
     specs = choose_specs(run, model_by_cell)
+    if model_by_cell is not None:
+        todo = {}
+        for s_ in specs:
+            k = cell_key(cell_of(s_), fault_mode(s_))
+            if k not in model_by_cell:
+                todo[k] = cell_term(cell_of(s_), fault_mode(s_))
+        if todo:
+            try:
+                outs = core.coq_eval_sharded(pre, list(todo.values()), "run_cell generated", "rrun", shard=128)
+                model_by_cell.update({k: canon_model(o) for k, o in zip(todo, outs)})
+            except core.CoqEvalError as e:
+                run.obligation("model traces of the generated term evaluate (fault modes)", False, str(e)[-600:])
+                model_by_cell = None
     base = core.scratch_dir("sv_c19_")
     results = []
     try:
@@ -624,8 +849,10 @@ def check(run: core.Run) -> int:
         make_one_animal_labels(labels1)
         t0 = time.time()
         jobs = int(os.environ.get("VERIF_C19_JOBS", "8"))
-        with ThreadPoolExecutor(max_workers=jobs) as ex:
-            results = list(ex.map(lambda s: run_worker(s, base, labels1), specs))
+        order = sorted(specs, key=lambda s_: (s_["framework"] != "litdata", not s_.get("use_existing")))
+        with ThreadPoolExecutor(max_workers=jobs) as ex:        # the slow (litdata, two-step) runs start first
+            by_id = dict(zip(map(spec_id, order), ex.map(lambda s_: run_worker(s_, base, labels1), order)))
+        results = [by_id[spec_id(s_)] for s_ in specs]
         run.coverage["real_runs"] = len(results)
         run.coverage["real_runs_wall_s"] = round(time.time() - t0, 1)
     finally:
@@ -634,6 +861,8 @@ def check(run: core.Run) -> int:
     disagreements = 0
     n_boundaries = 0
     harness_errors = 0
+    encodings = {}
+    home_hits = 0
     for res in results:
         spec = res["spec"]
         c = cell_of(spec)
@@ -644,11 +873,21 @@ def check(run: core.Run) -> int:
             continue
         obs_t, obs_o = observed_trace(res), observed_outcome(res)
         n_boundaries += len(res["events"])
+        encodings.update(res.get("encodings_hit") or {})
+        home_hits += len(res.get("home_hits") or [])
         run.case({"spec": spec}, nontrivial=True)
         fails = oracle(res)
         # correspondence with the model
-        if model_by_cell is not None:
-            m_t, m_o = model_by_cell[cell_key(c, spec.get("inject_fit_fault"))]
+        mkey = cell_key(c, fault_mode(spec))
+        # recorded assumption of the model: on chunk re-use the head's part_names / edges are supplied (the
+        # constructor fills them in only when it creates chunks); the corpus witness of F131 violates it
+        outside_model = (bool(spec.get("use_existing")) and spec["model_type"] != "centroid"
+                         and not (spec.get("opts") or {}).get("explicit_names"))
+        if model_by_cell is not None and not outside_model:
+            m_t, m_o = model_by_cell[mkey]
+            flt = fault_of(spec)
+            if flt and flt["at"] in PREFIX_FAULTS:
+                m_t, m_o = expected_prefix(spec, m_t), "exception"
             same = (m_t == obs_t and m_o == obs_o)
             if not same:
                 disagreements += 1
@@ -660,15 +899,15 @@ def check(run: core.Run) -> int:
             run.violation("failing-input", {
                 "spec": spec, "oracle_clause": f["clause"], "detail": f["detail"],
                 "observed_trace": obs_t, "observed_outcome": obs_o, "raised": res.get("raised"),
-                "model_trace": (model_by_cell or {}).get(cell_key(c, spec.get("inject_fit_fault"))),
+                "model_trace": (model_by_cell or {}).get(mkey),
                 "replay_cmd": "./check C19 --replay <this file>"}, selector=f["selector"])
         run.sample({"spec": spec_id(spec), "observed": obs_t, "outcome": obs_o,
                     "oracle_failures": [(f["clause"], f["selector"]) for f in fails][:6], "wall_s": res.get("wall_s")},
                    limit=4)
     if model_by_cell is not None:
-        run.obligation("correspondence: observed (file, by-constructor, key-present)/removal/outcome sequence == "
-                       "model trace of the GENERATED term, on every real run",
-                       disagreements == 0, f"{disagreements} of {len(results)} runs disagree")
+        run.obligation("correspondence: observed (file, by-constructor, key-present)/removal/login/outcome sequence == "
+                       "model trace of the GENERATED term (cut at the fault point for faults outside try), on every "
+                       "real run", disagreements == 0, f"{disagreements} of {len(results)} runs disagree")
 
     # ---- what the per-run obligations mean for the property
     if vals is not None:
@@ -688,30 +927,44 @@ def check(run: core.Run) -> int:
             if not (vals["completes_unless_F15"] and vals["has_failing_cell"]):
                 run.obligation("completes generated = true, or every failing cell is excused by selector F15",
                                False, f"checker values: {vals}")
-        if not (vals["rm_train_all_paths"] and vals["rm_val_all_paths"]):
-            if not (vals["rm_train_all_paths_unless_F15"] and vals["rm_val_all_paths_unless_F15"]
-                    and vals["has_rm_missing_cell"]):
+        if not all(vals[nm] for _, nm in RM_TARGETS):
+            if not (all(vals[nm + "_unless_F15"] for _, nm in RM_TARGETS) and vals["has_rm_missing_cell"]):
                 run.obligation("chunk deletion is reached on all paths, or every exception is excused by selector F15",
                                False, f"checker values: {vals}")
         for nm in ("initial_config_contract", "final_config_contract", "ckpt_contract", "chunk_guard_contract",
-                   "flag_determined"):
+                   "flag_determined", "final_config_contract_faults"):
             run.obligation(f"{nm} generated = true", bool(vals[nm]))
+        # the tracking-run id: F15 (undeclared run_id on a structured config) makes the mutation raise, which
+        # the completion checker reports; the id contract itself is judged when completion holds
+        if vals["completes"]:
+            run.obligation("run_id_contract generated = true", bool(vals["run_id_contract"]))
+            run.obligation("same_on_cells generated (reference true true) = true: the frozen snapshot of Part B "
+                           "has the observable behaviour of the current tree on all 384 cells x 5 fault modes",
+                           bool(vals["same_as_reference"]))
 
     run.coverage.update({
-        "grid": "model types x {torch_dataset, torch_dataset_np_chunks} x tracking x checkpointing x "
-                "{plain YAML-loaded, structured builder-made}" + (" (pairwise-covering subset)" if run.tier == "quick" else " (all 64)")
-                + " + delete-flag-off cells + fault-injected cells + corpus witnesses",
+        "grid": "model types x {torch_dataset, torch_dataset_np_chunks, litdata} x tracking x checkpointing x "
+                "{plain YAML-loaded, structured builder-made} x delete flag x wandb_mode {offline, None, online} x "
+                "chunk re-use (two-step) x memory fallback: pairwise-covering subset + nuisance options + "
+                "corpus witnesses + wandb-mode / re-use / litdata / fallback / delete-off cells + faults at "
+                "fit_return, fit_start, ckpt_hook (RuntimeError / KeyboardInterrupt) and outside try (dataset, after_initial)",
         "write_boundaries_scanned": n_boundaries, "disagreements": disagreements,
+        "key_encodings_scanned": [n for n, _ in key_patterns(KEY)],
+        "key_encodings_hit": encodings, "credential_store_hits_outside_output_tree": home_hits,
         "rule": "case = one real training run (fresh subprocess); all are non-trivial; distinct by the run spec",
         "runs": [spec_id(r["spec"]) for r in results],
     })
     run.trusted += [
         "translator/c19_effects2coq.py (Python ast -> effect term; fail-closed; its output is cross-checked against "
         "real runs on every check)",
-        "OmegaConf.save / Lightning TorchCheckpointIO / wandb Config.update / shutil.rmtree are the observation points; "
-        "Lightning, wandb, OmegaConf internals are not modelled (their files are scanned for the key)",
+        "OmegaConf.save / Lightning TorchCheckpointIO / wandb Config.update / wandb.login / shutil.rmtree are the "
+        "observation points; Lightning, wandb, OmegaConf, litdata internals are not modelled (their files are scanned "
+        "for the key, raw and encoded)",
     ]
     run.assumptions += (info.get("assumptions") or [])
+    run.assumptions.append("chunk re-use (use_existing_chunks) cells: the head's part_names / edges are supplied "
+                           "explicitly; with None the constructor does not fill them in on re-use and train() fails "
+                           "(finding F131, corpus witness replayed on every run, outside the effect model)")
     return run.finish()
 
 
